@@ -25,13 +25,22 @@ Fixpoint clauses_from (ipv : pystr -> option N) (n : N) (st : spec_state) (prev 
 Definition spec_failures (i : input) (obs_l : observation) : list (N * N) :=
   let '(_, tab, ops) := i in clauses_from (ipver_of tab) 0 [] obs0 ops obs_l.
 
+(* evaluated on the longest in-domain prefix of the history (see C03.Run.dom_prefix) *)
+Definition spec_failures_prefix (i : input) (obs_l : observation) : list (N * N) :=
+  let '(th, tab, ops) := i in
+  match th with
+  | [] => let p := dom_prefix ops in clauses_from (ipver_of tab) 0 [] obs0 p (firstn (length p) obs_l)
+  | _ => []
+  end.
+
 Fixpoint report (base : N) (cases : list (input * observation)) : list (N * N * N) :=
   match cases with
   | [] => []
   | (i, o) :: r =>
       (match first_diff 0 (model_run i) o with Some p => [(base, 0, p)] | None => [] end) ++
-      (if dom i then map (fun e => (base, fst e, snd e)) (spec_failures i o) else []) ++
+      map (fun e => (base, fst e, snd e)) (spec_failures_prefix i o) ++
       report (N.succ base) r
   end.
 
-Definition replay (c : input * observation) := (model_run (fst c), dom (fst c), spec_failures (fst c) (snd c)).
+Definition replay (c : input * observation) :=
+  (model_run (fst c), dom (fst c), spec_failures_prefix (fst c) (snd c)).
